@@ -246,7 +246,7 @@ Definition parse_frac (s : string) : option frac :=
   | Some f => Some f
   | None =>
       match split_on "+" s with
-      | _ :: _ :: _ as parts =>
+      | (_ :: _ :: _) as parts =>
           match map_opt parse_simple parts with Some ps => Some (frac_sum ps) | None => None end
       | _ => None
       end
